@@ -687,10 +687,30 @@ class Weaver:
 
     def weave_closure(self, k, header):
         cs = self.closures()
-        if k < 1 or k > len(cs):
-            raise LookupError("lost anchor: closure #%d (have %d)" % (k, len(cs)))
-        i, j = cs[k - 1]
         st = self.st
+        # identify the closure by the name of its first parameter when both the header and the source
+        # give one (robust against closures added / removed before it); otherwise by ordinal
+        hm = re.match(r"\s*\|\s*(?:mut\s+)?([A-Za-z][A-Za-z0-9_]*)\b", header)
+        def first_name(c):
+            a = c[0] + 1
+            if st[a].k == "id" and st[a].s == "mut": a += 1
+            return st[a].s if st[a].k == "id" and re.match(r"[A-Za-z][A-Za-z0-9_]*$", st[a].s) else None
+        pick = None
+        if hm:
+            hn = hm.group(1)
+            if 1 <= k <= len(cs) and first_name(cs[k - 1]) in (hn, None):
+                pick = cs[k - 1]
+            else:
+                named = [c for c in cs if first_name(c) == hn]
+                if len(named) == 1:
+                    pick = named[0]
+                elif 1 <= k <= len(cs) and first_name(cs[k - 1]) is not None:
+                    raise LookupError("lost anchor: closure #%d |%s ..| (closure at that position takes |%s ..|)" % (k, hn, first_name(cs[k - 1])))
+        if pick is None:
+            if k < 1 or k > len(cs):
+                raise LookupError("lost anchor: closure #%d (have %d)" % (k, len(cs)))
+            pick = cs[k - 1]
+        i, j = pick
         self.ed.add(st[i].a, st[j].b, header.strip() + " ", "R4")
         b = j + 1
         if st[b].s == "->":
